@@ -169,11 +169,11 @@ func runC11(c *Ctx) {
 			return
 		}
 		in := idle[0].(ssa.Instruction)
-		closedFalse := core.CondEdges(rel, false, func(cond ssa.Value) (bool, bool) {
+		closedFalse := core.PredEdges(rel, false, func(cond ssa.Value) (bool, bool) {
 			_, ok := core.CallTo(cond, func(f *types.Func) bool { return core.IsMethod(f, core.PkgCh, "Client", "IsClosed") })
 			return true, ok
 		})
-		ageFalse := core.CondEdges(rel, false, lifetimeCmp("Options.MaxConnLifetime"))
+		ageFalse := core.PredEdges(rel, false, lifetimeCmp("Options.MaxConnLifetime"))
 		switch {
 		case len(closedFalse) == 0 || !core.OnlyViaEdges(rel, in, closedFalse):
 			c.R.Bad(rule, core.FuncName(rel), cfg, p.Pos(in.Pos()), "a connection whose client is closed can be returned to the idle set")
